@@ -21,6 +21,7 @@ use crate::{
 use boa_ast::{
     Expression, Keyword, Punctuator, Span, Spanned,
     expression::{
+        OptionalOperation, OptionalOperationKind,
         access::PropertyAccess,
         operator::{Unary, unary::UnaryOp},
     },
@@ -81,6 +82,18 @@ where
                         )));
                     }
                     Expression::PropertyAccess(PropertyAccess::Private(_)) => {
+                        return Err(Error::lex(LexError::Syntax(
+                            "cannot delete private fields".into(),
+                            position,
+                        )));
+                    }
+                    // `delete a?.#b` and `delete a?.b.#c`
+                    Expression::Optional(optional)
+                        if matches!(
+                            optional.chain().last().map(OptionalOperation::kind),
+                            Some(OptionalOperationKind::PrivatePropertyAccess { .. })
+                        ) =>
+                    {
                         return Err(Error::lex(LexError::Syntax(
                             "cannot delete private fields".into(),
                             position,
